@@ -35,8 +35,14 @@ func genC03(r *rand.Rand, tier string, idx int) *World {
 		maxN = 40
 	}
 	n := 1 + r.IntN(maxN)
+	cordons := chance(r, 0.3)
 	for i := 0; i < n; i++ {
-		w.Nodes = append(w.Nodes, &NodeDef{Name: nodeName(i)})
+		nd := &NodeDef{Name: nodeName(i)}
+		if cordons && chance(r, 0.3) {
+			// cordoned or under pressure: taints every daemon pod tolerates - the node stays targeted
+			nd.Taints = []string{pick(r, "node.kubernetes.io/unschedulable:NoSchedule", "node.kubernetes.io/memory-pressure:NoSchedule", "node.kubernetes.io/not-ready:NoExecute")}
+		}
+		w.Nodes = append(w.Nodes, nd)
 	}
 	e := &EDSDef{NS: "ns1", Name: "foo", Initial: "A", Templates: map[string]*TemplateDef{"A": {Letter: "A"}, "B": {Letter: "B"}}}
 	e.Strategy = StrategyDef{
